@@ -17,7 +17,7 @@ if grep -q '\.cpp\|\.hpp' "$out/patch.diff"; then /venv/bin/python setup.py buil
 tres="not re-run"
 if [ -n "$tests" ]; then tres=$(/venv/bin/python -m pytest -q -p no:cacheprovider $tests 2>&1 | tail -1); fi
 cd /verif
-chk=$(MUT_LINES=6 tools/mut.sh "$out/patch.diff" "$id" quick 2>&1)
+chk=$(MUT_LINES=60 tools/mut.sh "$out/patch.diff" "$id" quick 2>&1)
 echo "$chk" > "$out/check_output.txt"
 caught=$(echo "$chk" | grep -c '^VIOLATION')
 cat > "$out/meta.json" <<EOF
